@@ -236,9 +236,81 @@ type run struct {
 
 var nop = zap.NewNop()
 
+// decodeScenario: two pools' worth of component configuration decoded at the same time (gun and
+// schedule factories decode their settings whenever an instance is created, so decodes of different
+// pools overlap in a real run). Each decode must fill its own result; the detector watches for state
+// shared between them.
+func (r *run) decodeScenario(x *vs.X) func(end, msg string) error {
+	type holder struct {
+		Gun     func() (core.Gun, error)
+		RPS     func() (core.Schedule, error)
+		Startup core.Schedule
+	}
+	confs := []map[string]any{
+		{"gun": map[string]any{"type": "http", "target": "127.0.0.1:81", "ssl": false}, "rps": map[string]any{"type": "const", "ops": 2, "duration": "1s"}, "startup": map[string]any{"type": "once", "times": 1}},
+		{"gun": map[string]any{"type": "http", "target": "127.0.0.1:82", "ssl": true}, "rps": map[string]any{"type": "once", "times": 3}, "startup": map[string]any{"type": "once", "times": 2}},
+	}
+	type outcome struct {
+		i    int
+		err  error
+		left int
+	}
+	results := make(chan outcome, len(confs)) // buffered: the hand-off to the oracle is a real synchronisation
+	// as in a real run, the configuration as a whole has been decoded (by one goroutine) before any
+	// component decodes its own part: the lazily compiled hook chain exists by then
+	var warm holder
+	_ = config.DecodeAndValidate(deepCopy(confs[0]), &warm)
+	for i := range confs {
+		i := i
+		conf := deepCopy(confs[i])
+		vs.Go(fmt.Sprintf("decode%d", i), func() {
+			var h holder
+			if err := config.DecodeAndValidate(conf, &h); err != nil {
+				results <- outcome{i: i, err: err}
+				return
+			}
+			if _, err := h.Gun(); err != nil {
+				results <- outcome{i: i, err: err}
+				return
+			}
+			s, err := h.RPS()
+			if err != nil {
+				results <- outcome{i: i, err: err}
+				return
+			}
+			results <- outcome{i: i, left: s.Left()}
+		})
+	}
+	close(r.res.Done)
+	return func(end, msg string) error {
+		if end != vs.EndComplete {
+			return fmt.Errorf("HANG: execution ended with %s (%s)", end, msg)
+		}
+		lefts := map[int]int{}
+		for range confs {
+			select {
+			case o := <-results:
+				if o.err != nil {
+					return fmt.Errorf("FAULT: decode %d failed: %v", o.i, o.err)
+				}
+				lefts[o.i] = o.left
+			default:
+				return fmt.Errorf("FAULT: a decode did not finish")
+			}
+		}
+		if lefts[0] != 2 || lefts[1] != 3 {
+			return fmt.Errorf("FAULT: the two decodes got each other's settings: schedules with %d and %d tokens, configured 2 and 3", lefts[0], lefts[1])
+		}
+		return nil
+	}
+}
+
 func (r *run) scenario(x *vs.X) func(end, msg string) error {
 	c := r.cell
 	r.res = EngRes{Done: make(chan struct{})}
+	if c.Pool == "decode" {
+		return r.decodeScenario(x)
+	}
 	var h struct {
 		Ammo   core.Provider
 		Result core.Aggregator
@@ -396,6 +468,7 @@ func cells(thorough bool) []Cell {
 			out = append(out, Cell{Pool: p, Result: "phout", Instances: 2, Shots: 4, Bound: 1, RPS: "overdue"})
 		}
 	}
+	out = append(out, Cell{Pool: "decode", Result: "none", Instances: 2, Bound: 1})
 	return out
 }
 
